@@ -56,6 +56,8 @@ def getitem(interp, st, base, idx, node=None):
     if isinstance(base, Rec) and "__getitem__" in base.fields.get("__methods__", ()):  # pragma: no cover
         raise Outside("__getitem__ on record", node)
     if isinstance(base, tuple) or isinstance(base, list):
+        if isinstance(idx, slice) and isinstance(base, list) and base and idx.step == -1 and idx.start is None and idx.stop is None:
+            return base[::-1]
         if isinstance(idx, slice):
             if any(is_sym(x) for x in (idx.start, idx.stop, idx.step) if x is not None):
                 if isinstance(base, list):
@@ -275,6 +277,11 @@ def grid_fancy_get(interp, st, g, idx, node):
 
 def symlist_slice(interp, st, lst: SymList, sl: slice, node):
     M = _M()
+    if sl.start is None and sl.stop is None and sl.step == -1:
+        k = z3.Int(V.fresh_name("k"))
+        n = to_z3(lst.length)
+        arrs = [a if (a is None or isinstance(a, str)) else z3.Lambda([k], z3.Select(a, n - 1 - k)) for a in lst.arrs]
+        return SymList(lst.tmpl, arrs, lst.length)
     sp = M.norm_slice(sl, lst.length)
     if sp.step != 1:
         raise Outside("list slice with step", node)
@@ -299,7 +306,10 @@ def setitem(interp, st, base, idx, v, node=None):
         return M.RecDictView(base.rec.with_field(idx, v), base.node)
     if isinstance(base, dict):
         if is_sym(idx) or (isinstance(idx, tuple) and any(is_sym(x) for x in idx)):
-            raise Outside("store into python dict with symbolic key", node)
+            if base:
+                raise Outside("store into a non-empty python dict with symbolic key", node)
+            key = M.as_key(idx, node)
+            return CDict.fresh("dict", len(key), v, empty=True).set(key, v)
         d = dict(base)
         d[idx] = v
         return d
